@@ -335,3 +335,60 @@ Fixpoint count_runs (fuel : nat) (s : state) : N :=
     | succs => fold_right N.add 0%N (map (count_runs k) succs)
     end
   end.
+
+(* ---------- specification vocabulary of the C08 theorems ---------- *)
+(* a row the appenders may write: no CR/LF in any field text, return code an int literal *)
+Definition row_ok (r : row) : Prop := Forall no_crlf (row_fields r) /\ is_int_lit (r_rc r) = true.
+
+(* actors before their first step *)
+Definition initial_actor (a : actor) : Prop :=
+  match a with
+  | App todo AIdle => Forall (fun p => row_ok (snd p)) todo
+  | Col _ CIdle [] false [] => True
+  | _ => False
+  end.
+
+Definition reachable (acts : list actor) (s : state) : Prop :=
+  exists sch ops, run (init acts) sch = Some (s, ops).
+
+(* rows appended to node files / directly to the processed file so far *)
+Definition node_log (lg : list (fid * row)) : list row := map snd (filter (fun p => negb (fid_eqb (fst p) Proc)) lg).
+
+Definition direct (lg : list (fid * row)) : list row := map snd (filter (fun p => fid_eqb (fst p) Proc) lg).
+
+(* rows an appender still has to write *)
+Definition pending_of (a : actor) : list row :=
+  match a with
+  | App todo pc => match pc with AHold _ r => [r] | _ => [] end ++ map snd todo
+  | Col _ _ _ _ _ => []
+  end.
+
+Definition pending (s : state) : list row := flat_map pending_of (actors s).
+
+(* all rows of the appenders' programs *)
+Definition program_rows (acts : list actor) : list row := flat_map pending_of acts.
+
+Definition total_rounds (acts : list actor) : nat :=
+  fold_right (fun a n => match a with Col k _ _ _ _ => k + n | App _ _ => n end) 0 acts.
+
+(* actor a is inside a locked section on f *)
+Definition holds (a : actor) (f : fid) : Prop :=
+  match a with
+  | App _ (AHold g _) | App _ (AWritten g) => f = g
+  | App _ AIdle => False
+  | Col _ pc _ _ _ =>
+    match pc with
+    | CIdle => False
+    | CGlob | CLoop _ => f = Proc
+    | CRead n _ | CAppend n _ _ | CRemove n _ _ | CRelN n _ => f = Proc \/ f = Node n
+    end
+  end.
+
+(* boolean forms, for concrete examples *)
+Definition row_okb (r : row) : bool := forallb no_crlfb (row_fields r) && is_int_lit (r_rc r).
+Definition initial_actorb (a : actor) : bool :=
+  match a with
+  | App todo AIdle => forallb (fun p => row_okb (snd p)) todo
+  | Col _ CIdle [] false [] => true
+  | _ => false
+  end.
